@@ -21,7 +21,8 @@ PID = 'C13'
 
 REG = [(1.0, 0.5), (0.0, 2.0), (3.0, 3.0), (0, -1), (0, -2), (2.5, 0.25), (2.0, float('inf')), (1.0, float('nan'))]
 BIN = [(True, True), (True, False), (False, True), (False, False), (True, 0.7), (False, 0.2)]
-MULTI = [(0, 0), (0, 1), (1, 1), (2, 0), ('x', 'x'), ('x', 'y'), (-1, -1), (-1, -2)]
+MULTI = [(0, 0), (0, 1), (1, 1), (2, 0), ('x', 'x'), ('x', 'y'), (-1, -1), (-1, -2), ('1', '1'), ('0', '1'),
+         (2 ** 53 + 1, 2 ** 53 + 1), ('1e3', '1e3')]
 DICT = [(0, {0: 0.7, 1: 0.3}), (1, {0: 0.6, 1: 0.4}), (1, {0: 0.1, 1: 0.9}), ('x', {'x': 0.5, 'y': 0.5}),
         (0, {0: 1.0, 1: 0.0})]
 
